@@ -114,11 +114,11 @@ def solo_main():
         out[name] = {}
         for prune in (True, False):
             gg = copy.deepcopy(g)
-            entry = {"status": None, "err": None, "res": None}
+            entry = {"status": None, "err": None, "res": None, "n_states": None, "n_transitions": None}
             try:
+                entry["n_states"] = len(gg["players"])
+                entry["n_transitions"] = sum(len(t) for t in gg["transition_list"] if hasattr(t, "__len__"))
                 sg = tad.StochasticGame(gg["rewards"], gg["players"], gg["transition_list"], gg["final_states"], prune_states=prune)
-                entry["n_states"] = sg.num_states
-                entry["n_transitions"] = sg.count_transitions()
                 with monitors.budget(2 * 10 ** 7):
                     r = sg.solve()
                 entry["status"] = "ok"
